@@ -67,6 +67,9 @@ func verif_NewConn(vm *Manager, name string, conn net.Conn, timestamp int64, sig
 		if useEncryption && useCompression {
 			verif.Ensures(verif.CalledBefore(evEnc, evComp), "encryption_below_compression")
 		}
+		// the queued connection outlives this call: a codec taken from the shared
+		// pool must not be handed back (and given to the next connection) here
+		verif.Ensures(!verif.Called("WithCompressionFromPool$fn$"), "codec_not_recycled_while_the_connection_lives")
 	} else {
 		verif.Ensures(err != nil, "refused_with_error")
 	}
